@@ -167,6 +167,8 @@ type Finding struct {
 	Replayed  string            `json:"replayed,omitempty"`
 	Replay    *ReplayInfo       `json:"replay,omitempty"`
 	Trace     []Decision        `json:"-"`
+	// ReplayDir: material of a native replay already performed (Replayed holds its verdict)
+	ReplayDir string `json:"-"`
 }
 
 type Decision = engine.Decision
